@@ -426,6 +426,11 @@ func runC10(c *CaseCtx) *CaseResult {
 	}
 	cc.Ops = ops
 	cc.Hist = HistCfg{DescendPct: 72, PopOnChild: true, InvalidPct: 2}
+	if kind == "map" && c.Case%3 == 1 {
+		// root-level hash collisions: nested containers living inside collision groups grow and shrink through their handles
+		cc.Dig = &DigProfile{Alpha: [4]uint64{uint64(3 + r.Intn(8)), 2, 2, 0}, Salt: uint64(r.Int63())}
+		cc.Prof.KeySpace = 60
+	}
 	cc.Mon = MonCfg{TreeEvery: 1, DeepEvery: 23, RefEvery: 37, ReachEvery: 11, ColdAtCommit: true}
 	cc.CommitEvery = []int{5, 20, 60}[c.Case%3]
 	cc.Phases = scalePhases(ops,
@@ -465,12 +470,99 @@ func runC11(c *CaseCtx) *CaseResult {
 	cc.Phases = scalePhases(ops, []Phase{PhaseGrow, PhaseChurn, PhaseChurn, PhaseShrink, PhaseChurn}, []int{25, 25, 20, 10, 20})
 	play := newDetachedPlay(6, 35, 100)
 	cc.PerOp = play.PerOp
+	cc.Final = func(w *World, root *Node, res *CaseResult) {
+		if err := staleHandleAfterReattach(w, root); err != nil {
+			if v, ok := err.(*Violation); ok {
+				res.fail(v)
+			} else {
+				res.fail(viol("harness", "%v", err))
+			}
+		}
+	}
 	res, w, _ := runContainerCase(c, cc)
 	s := w.stats
 	s.Extra["stale-handle-mutations"] += play.staleMut
 	s.Extra["stale-mutations-after-parent-moved-on"] += play.staleWhileReplaced
 	res.NonTrivial = play.staleWhileReplaced > 0 && s.Extra["reattached"] > 0 && s.Extra["detached-kept-stale-handle"] > 0
 	return res
+}
+
+// staleHandleAfterReattach is the last step of a C11 case (the world is discarded afterwards): every detached container
+// is re-attached to a brand-new parent through a SECOND handle (reloaded by slab id), and then mutated once through the
+// FIRST, stale handle, which still carries the former parent's callback. Whatever that does to the new parent (two live
+// handles on one container is outside what the API supports), the FORMER parent - the case's root - must be unaffected:
+// content, structure, size bookkeeping, and persisted form.
+func staleHandleAfterReattach(w *World, root *Node) error {
+	if len(w.detached) == 0 {
+		return nil
+	}
+	th := atree.VerifThresholds()
+	detached := append([]*Node(nil), w.detached...)
+	for _, d := range detached {
+		if err := w.handle(d); err != nil {
+			return err
+		}
+		id := rootID(d)
+		q, err := atree.NewArray(w.st, root.Addr, TI{ID: 5})
+		if err != nil {
+			return viol("harness", "%v", err)
+		}
+		var stale func() error
+		if d.Kind == KArr {
+			b, err := atree.NewArrayWithRootID(w.st, id)
+			if err != nil {
+				return viol("reopen", "reloading a detached array by id failed: %v", err)
+			}
+			if err := q.Append(b); err != nil {
+				return viol("ret-err", "attaching a detached array to a new parent failed: %v", err)
+			}
+			a := d.Arr
+			stale = func() error { return a.Append(scalarValue(w.genScalar(th.MaxInlineArrayElementSize / 8))) }
+		} else {
+			b, err := atree.NewMapWithRootID(w.st, id, w.builderFor(d))
+			if err != nil {
+				return viol("reopen", "reloading a detached map by id failed: %v", err)
+			}
+			if err := q.Append(b); err != nil {
+				return viol("ret-err", "attaching a detached map to a new parent failed: %v", err)
+			}
+			m := d.Map
+			stale = func() error {
+				_, err := m.Set(w.cb.Compare, w.cb.HashInput, scalarValue(&Node{Kind: KU64, U: 1 << 40}), scalarValue(w.genScalar(th.MaxInlineMapElementSize/8)))
+				return err
+			}
+		}
+		w.logOp("re-attach %s to a new parent through a second handle, then mutate through the stale handle", d)
+		_ = stale() // the result for the detached container / its new parent is unspecified (two handles)
+		w.stats.Extra["stale-mutations-after-reattach-by-second-handle"]++
+	}
+	// the former parent must be exactly what the model says
+	w.detached = nil
+	wk := NewWalker(liveGetter(w.ps), w.ps, w.cb)
+	if err := wk.WalkRootID(rootID(root), root, root.Dig); err != nil {
+		return viol("tree", "former parent after stale-handle mutation of a re-attached child: %v", err)
+	}
+	c := &cmpCtx{storage: w.st, cb: w.cb}
+	v, err := w.freshRoot(root, w.st)
+	if err != nil {
+		return err
+	}
+	if err := c.valueEqualsNode(v, root, root.String()); err != nil {
+		return viol("deep", "former parent after stale-handle mutation of a re-attached child: %v", err)
+	}
+	var st sizeStats
+	for sid := range wk.Visited {
+		if s := w.ps.RetrieveIfLoaded(sid); s != nil {
+			if err := CheckSlabBytes(s, &st); err != nil {
+				return viol("bytes", "former parent after stale-handle mutation of a re-attached child: %v", err)
+			}
+		}
+	}
+	if err := w.Commit(false, 2); err != nil {
+		// committing the (possibly inconsistent) new parents may fail; that is not the former parent's problem
+		return nil
+	}
+	return w.CheckCold(w.led.Snapshot(), []*Node{root}, []atree.SlabID{rootID(root)}, []*Node{root}, false)
 }
 
 // detachedPlay keeps some detached containers alive (stale handle kept, or reloaded by slab id), mutates them through
@@ -620,8 +712,9 @@ func init() {
 		ID: "C11", Level: "exploration", Run: runC11, Cases: cases(16*24, 16*200), MinNonTrivial: 8,
 		Rule: "cases = seeded histories in which children removed from / overwritten in their parent are kept alive (stale handle kept, or reloaded by slab id), mutated through that handle while the parent keeps changing, re-attached elsewhere or disposed of; " +
 			"after EVERY operation the former parent and every detached container are compared with their (now independent) models: content, structure, byte-level sizes, reachability with detached containers as extra roots, cold rebuild at commits. " +
+			"finally every still-detached container is re-attached to a new parent through a SECOND handle (reloaded by id) and mutated once through the first, stale handle: the former parent must be unaffected (structure, content, byte sizes, cold rebuild). " +
 			"non-trivial = a stale-handle mutation issued >3 operations after detachment, a re-attachment, and a stale handle kept; distinct by hash(config, operation list)",
-		Assumptions: []string{"overwriting an element with the very same child object is not generated", "exploration, not proof"},
-		Mandatory:   []string{"stale-handle-mutations", "reattached", "detached-reloaded-by-id"},
+		Assumptions: []string{"overwriting an element with the very same child object is not generated", "two live handles on one container are only used in the final step of a case, and only the former parent is judged afterwards", "exploration, not proof"},
+		Mandatory:   []string{"stale-handle-mutations", "reattached", "detached-reloaded-by-id", "stale-mutations-after-reattach-by-second-handle"},
 	})
 }
